@@ -3,7 +3,7 @@
   Spec + judge (core only).
 
   Trace alphabet (harness/C31/c31.go logs it under one mutex):
-    msg m ch seq mode from snode ssess   message m = (channel ch, sequence seq) is about to be dispatched
+    msg m ch seq mode from snode ssess recips   message m = (channel ch, sequence seq) is about to be dispatched to recips
     enq m ok batches                     a plan of m was handed to EnqueueRecipientDeliveryPlan (ok = accepted)
     pres m g ok uids                     presence answered one target batch (ok=false: target-scoped error)
     write m uid node sess disp           owner-local session write attempt (1 accepted 2 retryable 3 dropped)
@@ -23,7 +23,7 @@ namespace WK.C31
 abbrev RouteAtt := Nat × Nat × Nat × Nat     -- uid, node, sess, disposition
 
 inductive Ev where
-  | msg (m ch seq mode frm snode ssess : Nat)
+  | msg (m ch seq mode frm snode ssess : Nat) (recips : List Nat)
   | enq (m : Nat) (ok : Bool) (batches : List (Nat × List Nat))
   | pres (m g : Nat) (ok : Bool) (uids : List Nat)
   | write (m uid node sess disp : Nat)
@@ -47,6 +47,7 @@ structure MsgInfo where
   frm : Nat
   snode : Nat
   ssess : Nat
+  recips : List Nat := []
   deriving Repr
 
 /-- runtime.go suppressSenderRoute -/
@@ -68,6 +69,8 @@ structure J where
   presOk : List (Nat × Nat) := []                      -- (m, uid) of presence-resolved batches
   presCnt : List Nat := []                             -- one entry m per presence answer
   enqCnt : List Nat := []                              -- one entry m per accepted target batch
+  packed : List (Nat × Nat) := []                      -- (m, uid) of every plan handed to Online Delivery
+  rejected : List Nat := []                            -- messages with a rejected plan
   stopOk : Bool := false
   deriving Repr
 
@@ -97,11 +100,19 @@ def attemptAll (j : J) (m : Nat) (ok : Bool) : List RouteAtt → Except String J
     | .error e => .error e
 
 def stepJ (j : J) : Ev → Except String J
-  | .msg m ch seq mode frm snode ssess =>
+  | .msg m ch seq mode frm snode ssess recips =>
     if (lookup j.msgs m).isSome then .error "bad-trace-duplicate-message" else
-    .ok { j with msgs := (m, { ch, seq, mode, frm, snode, ssess }) :: j.msgs }
+    .ok { j with msgs := (m, { ch, seq, mode, frm, snode, ssess, recips }) :: j.msgs }
   | .enq m ok batches =>
-    if ok then .ok { j with enqCnt := batches.map (fun _ => m) ++ j.enqCnt } else .ok j
+    match lookup j.msgs m with
+    | none => .error "bad-trace-unknown-message"
+    | some i =>
+      let us := batches.flatMap (·.2)
+      -- plan packing (dispatchRecipientPlans): only intended recipients, none twice
+      if us.any (fun u => j.packed.count (m, u) + us.count u > i.recips.count u) then .error "plan-packing-wrong-recipient" else
+      let j := { j with packed := us.map (fun u => (m, u)) ++ j.packed }
+      if ok then .ok { j with enqCnt := batches.map (fun _ => m) ++ j.enqCnt }
+      else .ok { j with rejected := m :: j.rejected }
   | .pres m _ ok uids =>
     match lookup j.msgs m with
     | none => .error "bad-trace-unknown-message"
@@ -126,6 +137,8 @@ def stepJ (j : J) : Ev → Except String J
 /-- end-of-case check (only meaningful after a clean Stop: every accepted plan has completed) -/
 def finalJ (j : J) : Except String Unit :=
   if !j.stopOk then .ok () else
+  if j.msgs.any (fun p => !(j.rejected.contains p.1) && p.2.recips.any (fun u => j.packed.count (p.1, u) != p.2.recips.count u))
+    then .error "plan-packing-lost-recipient" else
   if j.msgs.any (fun p => j.presCnt.count p.1 != j.enqCnt.count p.1) then .error "plan-not-processed" else
   match j.presOk.findSome? (fun (m, u) =>
       match lookup j.msgs m with
@@ -153,8 +166,8 @@ def parseEv (tok : String) : Option Ev :=
   if tok == "T0" then some .stopCall else
   match tok.splitOn ":" with
   | ["T1", r] => (natOf r).map (fun x => .stopRet (x == 1))
-  | ["N", m, ch, seq, mode, frm, sn, ss] => do
-      pure (.msg (← natOf m) (← natOf ch) (← natOf seq) (← natOf mode) (← natOf frm) (← natOf sn) (← natOf ss))
+  | ["N", m, ch, seq, mode, frm, sn, ss, us] => do
+      pure (.msg (← natOf m) (← natOf ch) (← natOf seq) (← natOf mode) (← natOf frm) (← natOf sn) (← natOf ss) (← natsDot us))
   | ["E", m, ok, bs] => do
       let batches ← (bs.splitOn ";").mapM (fun b => match b.splitOn "/" with
         | [g, us] => do pure ((← natOf g), (← natsDot us))
